@@ -237,3 +237,143 @@ def short_(e: Event) -> str:
     if e.kind == "store":
         return f"{short(e.target)} = {short(e.value)}"
     return short(e.term)[:200]
+
+
+def check_or_defaults(ctx: Ctx, base: Optional[str], floor: int = 1) -> None:
+    """`settings[k] or default` / `settings.get(k) or default` replaces a configured 0 (0.0, False)
+    by the default: for a numeric setting that is a different configuration than the one given.
+    Reported only where the value is numeric by the code's own account (assigned to an attribute
+    typed int/float, wrapped in int()/float(), or defaulted to a number).
+    base: restrict to setup() of subclasses of that class (None: every setup(settings))."""
+    import ast as _ast
+
+    def reads_settings(n: _ast.AST, names: set, local: Dict[str, _ast.AST]) -> Optional[str]:
+        while isinstance(n, _ast.Call) and isinstance(n.func, _ast.Name) and n.func.id in ("int", "float") and len(n.args) == 1:
+            n = n.args[0]
+        if isinstance(n, _ast.Name) and n.id in local:
+            return reads_settings(local[n.id], names, {})
+        if isinstance(n, _ast.Subscript) and isinstance(n.value, _ast.Name) and n.value.id in names:
+            return _ast.unparse(n)
+        if isinstance(n, _ast.Call) and isinstance(n.func, _ast.Attribute) and n.func.attr in ("get", "pop") and isinstance(n.func.value, _ast.Name) and n.func.value.id in names:
+            return _ast.unparse(n)
+        return None
+
+    def numeric_type(t: Any) -> bool:
+        if t and t[0] == "opt":
+            t = t[1]
+        return bool(t) and t[0] == "prim" and t[1] in ("int", "float")
+
+    ns = 0
+    for g in ctx.program.all_functions():
+        if g.name != "setup" or g.cls is None:
+            continue
+        names = {p for p in g.params if "setting" in p}
+        if not names:
+            continue
+        if base is not None and not ctx.program.is_subclass(g.cls.name, base):
+            continue
+        ns += 1
+        # locals assigned exactly once
+        counts: Dict[str, int] = {}
+        vals: Dict[str, _ast.AST] = {}
+        for n in _ast.walk(g.node):
+            if isinstance(n, (_ast.Assign, _ast.AnnAssign)):
+                tgts = n.targets if isinstance(n, _ast.Assign) else [n.target]
+                for t in tgts:
+                    if isinstance(t, _ast.Name) and n.value is not None:
+                        counts[t.id] = counts.get(t.id, 0) + 1
+                        vals[t.id] = n.value
+        local = {k: v for k, v in vals.items() if counts[k] == 1}
+        parents: Dict[_ast.AST, _ast.AST] = {}
+        for n in _ast.walk(g.node):
+            for c in _ast.iter_child_nodes(n):
+                parents[c] = n
+        bad = 0
+        for n in _ast.walk(g.node):
+            if not (isinstance(n, _ast.BoolOp) and isinstance(n.op, _ast.Or) and len(n.values) >= 2):
+                continue
+            src = reads_settings(n.values[0], names, local)
+            if src is None:
+                continue
+            numeric = False
+            top: _ast.AST = n
+            while isinstance(parents.get(top), _ast.Call) and isinstance(parents[top].func, _ast.Name) and parents[top].func.id in ("int", "float"):
+                top = parents[top]
+                numeric = True
+            d = n.values[-1]
+            if isinstance(d, _ast.Constant) and isinstance(d.value, (int, float)) and not isinstance(d.value, bool):
+                numeric = True
+            if isinstance(d, _ast.Attribute) and isinstance(d.value, _ast.Name) and d.value.id == "self" and numeric_type(ctx.ctab.attr_type(g.cls.name, d.attr)):
+                numeric = True
+            par = parents.get(top)
+            if isinstance(par, (_ast.Assign, _ast.AnnAssign)):
+                tgts = par.targets if isinstance(par, _ast.Assign) else [par.target]
+                for t in tgts:
+                    if isinstance(t, _ast.Attribute) and isinstance(t.value, _ast.Name) and t.value.id == "self" and numeric_type(ctx.ctab.attr_type(g.cls.name, t.attr)):
+                        numeric = True
+            if numeric:
+                bad += 1
+                ctx.violated(g, n, f"{g.qualname} takes configured numbers as given", "presence test (`k in settings` / `is not None`) before falling back to a default", f"`{_ast.unparse(n)[:120]}`: a configured 0 counts as absent and is replaced by the default")
+        if not bad:
+            ctx.holds(g, g.node, f"{g.qualname} takes configured numbers as given", "no `<settings read> or <default>` in a numeric place")
+    ctx.require(ns >= floor, "fewer setup(settings) implementations than confirmed by reading")
+
+
+def check_identity_comparisons(ctx: Ctx, classes: Optional[List[str]], floor: int = 1) -> None:
+    """`a is b` between values that are compared by value everywhere else: numbers, strings, tuples,
+    instances of a class that defines __eq__.  Identity of such values is an accident of the
+    interpreter (small-int cache, interning, which object a copy or a configuration reader built).
+    Reported only when the static type of an operand is known to be of that kind.
+    classes: restrict to methods of these classes and their subclasses (None: all of pams)."""
+    import ast as _ast
+    from ..types import TypeEnv
+
+    p = ctx.program
+    # value objects: classes that define both __eq__ and __hash__ (an entity with __eq__ only, like Order, may be tested for identity on purpose)
+    by_value = {c for c in p.classes if any("__eq__" in p.classes[m].methods and "__hash__" in p.classes[m].methods for m in p.mro(c) if m in p.classes)}
+
+    def valueish(t: Any) -> Optional[str]:
+        if not t:
+            return None
+        if t[0] == "opt":
+            return valueish(t[1])
+        if t[0] == "prim" and t[1] in ("int", "float", "str", "bytes", "complex"):
+            return t[1]
+        if t[0] == "tuple":
+            return "tuple"
+        if t[0] == "cls" and t[1] in by_value:
+            return f"{t[1]} (a value class: defines __eq__ and __hash__)"
+        return None
+
+    def singleton(n: _ast.AST) -> bool:
+        return isinstance(n, _ast.Constant) and (n.value is None or isinstance(n.value, bool) or n.value is Ellipsis)
+
+    nf = 0
+    for g in p.all_functions():
+        if classes is not None:
+            owner = g
+            while owner.outer is not None:
+                owner = owner.outer
+            if owner.cls is None or not any(p.is_subclass(owner.cls.name, c) for c in classes if c in p.classes):
+                continue
+        nf += 1
+        env = None
+        bad = 0
+        for n in _ast.walk(g.node):
+            if not isinstance(n, _ast.Compare):
+                continue
+            left = n.left
+            for op, right in zip(n.ops, n.comparators):
+                if isinstance(op, (_ast.Is, _ast.IsNot)) and not singleton(left) and not singleton(right):
+                    if env is None:
+                        env = TypeEnv(p, g, ctx.ctab)
+                    kinds = [valueish(env.type_of(x)) for x in (left, right)]
+                    const_val = [isinstance(x, _ast.Constant) and not singleton(x) for x in (left, right)]
+                    why = next((k for k in kinds if k), None) or ("a literal" if any(const_val) else None)
+                    if why:
+                        bad += 1
+                        ctx.violated(g, n, f"{g.qualname}: values are compared by value", "`==` / `!=` (identity only for None, booleans and objects without value equality)", f"`{_ast.unparse(n)[:100]}` compares by identity a value of type {why}: equal values held in distinct objects are told apart")
+                left = right
+        if not bad:
+            ctx.holds(g, g.node, f"{g.qualname}: values are compared by value", "no identity comparison of numbers, strings, tuples or instances of a class with __eq__")
+    ctx.require(nf >= floor, "fewer functions examined than confirmed by reading")
